@@ -29,7 +29,7 @@ var (
 	curCall    atomic.Pointer[current]
 	wdResult   *Result
 	wdOut      string
-	wdLimit    = 8 * time.Second
+	wdLimit    = 15 * time.Second
 	wdReplay   bool
 	hangExitRC = 3
 )
